@@ -3,6 +3,7 @@
 import json,collections,sys
 fs=json.load(open(sys.argv[1]))
 n=int(sys.argv[2]) if len(sys.argv)>2 else 3
+fs=fs or []
 c=collections.Counter(f['sig'] for f in fs)
 for s,cnt in c.most_common():
     print(cnt,s)
